@@ -304,6 +304,39 @@ def run_entity(chk, case):
     d = _diff("message", ent.message_attributes, back.message_attributes)
     if d and not (kind == "document" and d[0].endswith("file_length")):
         fails.append(oracle("C10:entity-field-not-preserved:%s" % kind, "complete %s message (seed %d): field %s was %r, comes back as %r" % (kind, case["seed"], d[0], d[1], d[2])))
+    # ---- the application edits the content of the entity it holds (in place, as the attribute objects allow) and sends it again:
+    #      the payload must be the edited content (serialising is a function of the current content, not of an earlier call)
+    try:
+        if kind == "conversation":
+            body2 = _gen_scalar(r, "str", "val") + "'"
+            if r.random() < 0.5:
+                ent.setBody(body2)
+            else:
+                ent.conversation = body2
+            want_attrs = None
+        else:
+            spec2 = gen_spec(r, sub, 1, req)
+            if sub == "document":
+                spec2["file_length"] = ["none"]
+            attrs2 = build_obj(sub, spec2)
+            attrs.__dict__.clear()
+            attrs.__dict__.update(attrs2.__dict__)
+            want_attrs = attrs2
+        node3 = ent.toProtocolTreeNode()
+        back3 = cls.fromProtocolTreeNode(node3)
+        chk.hit("entity:edited-and-resent")
+        if kind == "conversation":
+            if back3.conversation != body2:
+                fails.append(oracle("C10:entity-edit-not-serialised:%s" % kind, "complete text message (seed %d): serialised, body changed to %r, serialised again: the payload carries %r"
+                                    % (case["seed"], body2, back3.conversation)))
+        else:
+            field = [p for p, t in ps.flat_fields("message") if t == "sub:" + sub][0]
+            d3 = _diff(sub, want_attrs, getattr(back3.message_attributes, field))
+            if d3 and not (kind == "document" and d3[0].endswith("file_length")):
+                fails.append(oracle("C10:entity-edit-not-serialised:%s" % kind, "complete %s message (seed %d): serialised, content edited in place, serialised again: field %s should be %r, the payload carries %r"
+                                    % (kind, case["seed"], d3[0], d3[1], d3[2])))
+    except Exception as e:
+        fails.append(oracle("C10:entity-edit-raises:%s" % kind, "complete %s message (seed %d): editing and re-serialising raises %s: %s" % (kind, case["seed"], type(e).__name__, str(e)[:120])))
     p1, p2 = node.getChild("proto"), node2.getChild("proto")
     if bytes(p1.getData()) != bytes(p2.getData()) or p1["mediatype"] != p2["mediatype"] or node["type"] != node2["type"]:
         if not (kind == "document"):
